@@ -10,6 +10,34 @@ CLAIMS = {
  "C15": dict(engine="coq+rs-core", design="DESIGN.md section 6 C15",
    text="11 Coq theorems for every separator character (multi-byte included) and every Unicode string: PathIter = split at every separator, root() = drop the first segment, no slice off a char boundary, fused; the four JSON-path notations mixed freely yield the same keys; written Path/JsonPath forms parse back; JsonPathIter never slices out of range and is fused. Tie: exhaustive short strings + random long ones + node writes, compared inside Coq.",
    note="trusted: Coq kernel; hand-written model of str::split_at/get/find/strip_prefix/len_utf8 and itoa; correspondence is testing"),
+
+ "C01": dict(engine="coq+rs-gen", design="DESIGN.md section 6 C01",
+   text="Coq theorems for every schema (all built-in impls, derive expansions, any nesting), value, callback oracle, codec behaviour, key source and operation: write_frame (either nothing changed, or exactly one leaf write and the new tree is the old one with that leaf replaced by the decoded payload), a write is followed only by Ok or a validator's Invalid, every other failure leaves the tree unchanged, reads never write. Tie: generated derive programs compiled against /repo, whole-tree snapshots by plain field access after every operation of read/write histories, compared inside Coq.",
+   note="trusted: Coq kernel; hand-written model of impls.rs/leaf.rs/derive (coq/Tree.v); generator+emitter; the leaf codec enters as a table produced by serde-json-core itself; correspondence is testing"),
+ "C02": dict(engine="coq+rs-gen", design="DESIGN.md section 6 C02",
+   text="Coq theorems: the bottom-up depth bookkeeping of all impls equals one top-down walk counting consumed keys (walk_is_run: same outcome, depth, new value, callback log, for all four value operations); structural_agreement between the type-level traversal and every value operation (relation R: equal structural outcome unless a failure at a depth not deeper pre-empts); the traversal never reports Absent/Access/Invalid. Tie: five operations x key representations x runtime states on generated programs.",
+   note="trusted: as C01; step order inside one node is the model's transliteration of the code, validated by the correspondence"),
+ "C03": dict(engine="coq+rs-gen", design="DESIGN.md section 6 C03",
+   text="Coq theorems: NodeIter on schemas simulates the shape-level odometer; |enum|+2 calls of next() yield exactly the depth-first enumeration with cut-off, each node once, in order, then None (any schema, any D, any target that does not run out of capacity); with D >= max_depth all yielded nodes are leaves and their number is Metadata.count. Tie: nodes::<N,D>() for five targets on generated programs vs the model.",
+   note="trusted: as C01; targets with insufficient capacity are covered by C11's correspondence only"),
+ "C04": dict(engine="coq+rs-gen", design="DESIGN.md section 6 C04",
+   text="Coq theorems: callback count = reported depth; index form of any key that reaches a node resolves to the same node and re-transcoding is a fixpoint; chained key sources behave as concatenation; written Path/JsonPath forms parse back. Tie: every node x representation pairs x chain splits x capacities, recording callback, on generated programs.",
+   note="trusted: as C01; round trip through names assumes pairwise distinct child names (rename collisions are accepted by the macro: see DESIGN known finding discussion); name round trip is decided by the correspondence, not proved"),
+ "C06": dict(engine="coq+rs-gen", design="DESIGN.md section 6 C06",
+   text="Coq theorems: meta_exact (count = number of leaves; max_depth/max_length/max_bits = maxima over the per-leaf statistics, attained and not exceeded) for every well-formed schema; Metadata and the recording walk are instances of one generic walk that passes exactly the children and lookup of every internal node. Tie: traverse_all::<Metadata> and a recording Walk on generated programs (array/tuple-struct lengths around powers of ten and two).",
+   note="trusted: as C01; 'buffers sized from metadata suffice' is decided by correspondence + packed_bound (C09), the path-length half is not proved; count overflow beyond 2^64 leaves is outside the model"),
+ "C09": dict(engine="coq+rs-gen", design="DESIGN.md section 6 C09",
+   text="Coq theorems: the packed key of a node is push_all over the (width,index) fields of its path; packed_decodes (every key decodes back to its node), packed_injective, packed_order (numeric order = lexicographic order for non-prefix nodes), packed_bound (bits <= max_bits), packed_stable (appending children within a power of two keeps all keys). Tie: transcode::<Packed>, nodes::<Packed,D>, max_bits on generated programs.",
+   note="trusted: as C01 and C08; sibling counts up to 2^63"),
+ "C11": dict(engine="coq+rs-gen", design="DESIGN.md section 6 C11",
+   text="Coq theorems: iteration rooted at any node (root given in any key representation: iter_root_state) with any depth limit yields exactly the enumeration with cut-off of the subtree, prefixed by the root path, then None; fused. Capacity-error behaviour and ExactSize are decided by the correspondence and the Stage C predicate only.",
+   note="trusted: as C01; partial: no theorem for the capacity-error arm and for ExactSize::len"),
+ "C12": dict(engine="coq+rs-gen", design="DESIGN.md section 6 C12",
+   text="Coq theorems: per field (deny stops; failing getter is the last callback; errors pass through without validators; validators only on deserialize, after the child, with the depth from below, may replace it, failure is Invalid at the field) and for the whole access (run_protocol: the log is a nest getters top-down / one leaf access / validators bottom-up; validators only after the leaf was written). Tie: scripted get/get_mut/validate/deny on generated programs, real call log vs the model's log.",
+   note="trusted: as C01; user callbacks are an oracle table quantified in the theorems and scripted in the generated Rust"),
+ "C16": dict(engine="coq+rs-gen", design="DESIGN.md section 6 C16",
+   text="Coq theorems: every explicit panic site of the model (unreachable!() arms, slice index, str slice, shifts) is unreachable: knext_bound, run_no_panic (well-typed values), trav_no_panic, path/json no panic, wide packed widths refused. Tie: malformed keys/payloads on generated programs in the dev and release profile under catch_unwind.",
+   note="trusted: as C01; partial: panics inside serde-json-core, postcard, heapless, itoa, core and memory safety are outside the model; NodeIter's loop no-panic is shown by simulation for total targets only"),
 }
 checks = []
 for p in props:
@@ -26,6 +54,7 @@ m = dict(version=1, setup_cmd="./check --setup",
              source_commits=["bae3dc6"], add_only=True),
   engines=[dict(name="coq", path="coq/", serves_properties=sorted(CLAIMS), kind_free_text="Coq 8.16 development: models, proofs, pinned property files (coq/Properties)"),
            dict(name="rs-core", path="harness/rs-core", serves_properties=[k for k in ["C08", "C15"] if k in CLAIMS], kind_free_text="Rust harness over /repo's miniconf for Packed and the string splitters"),
+           dict(name="rs-gen", path="harness/rs-gen + lib/gen", serves_properties=[k for k in ["C01","C02","C03","C04","C06","C09","C11","C12","C16"] if k in CLAIMS], kind_free_text="generated derive programs (python generator, Rust emitter, sharded cargo workspace built against /repo) + common harness crate"),
            dict(name="check", path="check", serves_properties=sorted(CLAIMS), kind_free_text="python runner: stage A (proof), B (tie), C (search for a failing input), evidence")],
   checks=checks,
   not_applicable=[dict(property_id=p['id'], reason="check not built yet (planned with the same technique, see DESIGN.md section 6); not claimed in this commit") for p in props if p['id'] not in CLAIMS],
